@@ -436,10 +436,11 @@ func (c *Check) Finish() int {
 	for _, u := range c.unstable {
 		fmt.Printf("UNSTABLE (not believed): family=%s sig=%s %s\n", u.Family, u.Sig, u.Msg)
 	}
+	dir := filepath.Join(root, "replays", c.ID)
+	os.RemoveAll(dir) // replay files of earlier runs are stale
 	if c.nViol == 0 {
 		return 0
 	}
-	dir := filepath.Join(root, "replays", c.ID)
 	os.MkdirAll(dir, 0o755)
 	for _, v := range c.viol {
 		b, _ := json.MarshalIndent(v, "", " ")
